@@ -169,4 +169,10 @@ def r3(ctx):
     if adds:
         extra = sorted(k.arg for k in adds[0].keywords if k.arg not in ("dest", "action", "default", "metavar", "help"))
         ctx.check(not extra, "coverage.__main__:-x:verbatim", f"-x/--exclude is registered with {extra}", bp.loc(adds[0]))
+    # one registration per front end: an option registered on a parser AND on its sub-parser shares one destination, and
+    # argparse lets the sub-parser's default overwrite what the parent collected (the patterns are silently dropped)
+    for short in ("__main__", "tree", "coverage.__main__"):
+        m = repo.mod(short)
+        regs = [c for fn in m.functions.values() for c in fn.calls() if isinstance(c.func, ast.Attribute) and c.func.attr == "add_argument" and any(isinstance(a, ast.Constant) and a.value in ("-x", "--exclude") for a in c.args)]
+        ctx.check(len(regs) == 1, f"{short}:-x:registered-once", f"-x/--exclude is registered {len(regs)} times in {short}: on nested parsers the inner default replaces the patterns collected by the outer one", f"codebasin/{short.replace('.', '/')}.py")
     ctx.floor(5)
